@@ -360,6 +360,29 @@ func TestGvcReplay(t *testing.T) {
 	}
 }
 `}})
+	clauseScenarios = append(clauseScenarios,
+		clauseScenario{"ast.(*TaskfileGraph).Merge", "", scenario{pkgRel: "", what: "sibling includes that define the same variable are merged in a different order on different loads",
+			src: gvcHeader + `
+func TestGvcReplay(t *testing.T) {
+	dir := t.TempDir()
+	gvcWrite(t, dir, "Taskfile.yml", "version: '3'\nincludes:\n  a: ./a.yml\n  b: ./b.yml\n  c: ./c.yml\n  d: ./d.yml\ntasks:\n  show:\n    cmds: [\"echo {{.X}}\"]\n")
+	for _, n := range []string{"a", "b", "c", "d"} {
+		gvcWrite(t, dir, n+".yml", "version: '3'\nvars:\n  X: from-"+n+"\ntasks:\n  t"+n+":\n    cmds: [\"echo "+n+"\"]\n")
+	}
+	seen := map[string]bool{}
+	for i := 0; i < 40; i++ {
+		var out bytes.Buffer
+		e := gvcExec(t, dir, &out, task.WithSilent(true))
+		if err := e.Run(context.Background(), &task.Call{Task: "show"}); err != nil {
+			t.Fatalf("run: %v", err)
+		}
+		seen[strings.TrimSpace(out.String())] = true
+	}
+	if len(seen) > 1 {
+		t.Fatalf("GVC-REPLAY-REPRODUCED: 40 loads of the same Taskfile tree gave %d different values for X: %v", len(seen), seen)
+	}
+}
+`}})
 	clauseScenarios = append(clauseScenarios, clauseScenario{"fingerprint.(*TimestampChecker).OnError", "stampPath", scenario{pkgRel: "", what: "method timestamp: a failed run leaves the stamp file, the next run reports the task up to date",
 		src: gvcHeader + `
 func TestGvcReplay(t *testing.T) {
